@@ -20,7 +20,7 @@ func verif_forall[T any](f func(T) bool) bool { return true }
 
 // verif_preserved: "loop k: preserved n int :: g :: e" - e(n) has the same value at the loop head and
 // at the end of the body for every n with g(n); proved by induction on n (interpreted by govc)
-func verif_preserved(g func(int) bool, e func(int) int) bool { return true }
+func verif_preserved[T any](g func(int) bool, e func(int) T) bool { return true }
 
 // verif_held: the mutex is held by the current request (interpreted by govc)
 func verif_held(mu *sync.Mutex) bool { return true }
@@ -117,6 +117,7 @@ func specSameQuota(ue *chf_context.ChfUe, old map[int32]int64) bool {
 //@   loop 1: unroll 1 when-inlined
 //@   loop 2: unroll 1 when-inlined
 //@   loop 0: invariant 0 <= ITER && ITER <= len(chargingData.MultipleUnitUsage)
+//@   loop 0: preserved [C06] n int :: 0 <= n && n < len(multipleUnitInformation) :: multipleUnitInformation[n].FinalUnitIndication.FinalUnitAction :: models.FinalUnitAction
 //@   loop 1: invariant 0 <= ITER && ITER <= len(unitUsage.UsedUnitContainer)
 //@   loop 2: invariant 0 <= ITER && ITER <= len(chargingData.Triggers)
 
